@@ -690,8 +690,14 @@ def impl_config(case):
     obs = [make_observable(k) for k in case["obs"]]
     tags = [o._base_tag for o in obs]
     skw = _solver_kw(case.get("solver"))
+    a_arg = case["a"]
+    if case.get("a_type") == "int":
+        a_arg = int(a_arg)
+    elif case.get("a_type") == "np.float64":
+        import numpy as np
+        a_arg = np.float64(a_arg)
     try:
-        cfg = MPSConfig(precision=case["p"], extra_krylov_tolerance=case["e"], autosave_dt=case["a"],
+        cfg = MPSConfig(precision=case["p"], extra_krylov_tolerance=case["e"], autosave_dt=a_arg,
                         optimize_qubit_ordering=case["o"], observables=obs, log_level=logging.CRITICAL, **skw)
     except (AssertionError, ZeroDivisionError) as ex:
         return {"outcome": type(ex).__name__, "tags": tags}
@@ -843,6 +849,18 @@ def solver_grid_cases():
             for e in (0.0, 1e-30, _nextafter(1e-12 / p, -2), 1e-12 / p, _nextafter(1e-12 / p, 2), 1e-3, 1.0):
                 out.append({"kind": "solver-grid", "p": p, "e": e, "a": float("inf"), "o": True, "obs": ["occupation"],
                             "solver": sv, "variants": True})
+    return out
+
+
+def autosave_edge_cases():
+    """autosave_dt exactly at / next to the limit, spelled as float, int and numpy scalar."""
+    out = []
+    for a, ty in [(10.0, "float"), (10, "int"), (10.0, "np.float64"), (_nextafter(10.0, 1), "float"),
+                  (_nextafter(10.0, 1), "np.float64"), (_nextafter(10.0, -1), "float"), (_nextafter(10.0, -1), "np.float64"),
+                  (11, "int"), (9, "int"), (0, "int"), (-10, "int")]:
+        for sv in (None, "dmrg-enum"):
+            out.append({"kind": "autosave-edge", "p": 1e-5, "e": 1e-3, "a": float(a), "a_type": ty, "o": True,
+                        "obs": [], "solver": sv, "variants": False})
     return out
 
 
@@ -1022,6 +1040,7 @@ def run(ctx):
     corpus = corpus_cases()
     cases = [c for c in corpus if c.get("what") == "config"]
     cases += solver_grid_cases()
+    cases += autosave_edge_cases()
     cases += subset_cases(ctx)
     for kind, nq, nt in (("straddle", 500, 6000), ("grid", 400, 4000), ("autosave", 200, 1500), ("random", 300, 4000)):
         cases += [gen_float_case(ctx.rng, kind) for _ in range(ctx.n(nq, nt))]
